@@ -262,12 +262,31 @@ def check_algebraic_system(ex, reg, src, name, m, plain_fields=None):
         # arguments (nothing the first evaluation left on the object -- scaled coefficients, stage states -- enters it)
         K2 = ConcVec([LinComb.sym("L%d" % i) for i in range(n)])
         t2, h2, y2 = Poly.sym("t2"), Poly.sym("h2"), LinComb.sym("y2")
-        want2 = []
-        for i in range(n):
-            acc = LinComb.zero()
-            for j in range(n):
-                acc = acc + K2.items[j].scale(h2 * T.rows[i][1 + j])
-            want2.append(K2.items[i] - LinComb.app("rhs", t2 + h2 * T.rows[i][0], y2 + acc))
+
+        def spec2(t_, h_):
+            out = []
+            for i in range(n):
+                acc = LinComb.zero()
+                for j in range(n):
+                    acc = acc + K2.items[j].scale(h_ * T.rows[i][1 + j])
+                out.append(K2.items[i] - LinComb.app("rhs", t_ + h_ * T.rows[i][0], y2 + acc))
+            return out
+        want2 = spec2(t2, h2)
+
+        def agrees(s2, got2):
+            # equality of residual vectors is decided syntactically (exact polynomial identity); on a path whose condition identifies the
+            # second call's step size or time with the first's (a cache keyed on *exact* equality is correct), compare modulo that identity
+            if got2 == want2:
+                return True
+            sol = z3.Solver()
+            sol.add(*[c for c in s2.pc if z3.is_expr(c)])
+            same = {}
+            for a_, b_ in ((h2, h), (t2, t)):
+                sol.push()
+                sol.add(a_.to_z3() != b_.to_z3())
+                same[a_] = sol.check() == z3.unsat
+                sol.pop()
+            return any(same.values()) and got2 == spec2(t if same[t2] else t2, h if same[h2] else h2)
         saved, ex.opaque_nondet = getattr(ex, "opaque_nondet", False), True
         try:
             again = ex.call_function(fi, [selfobj, K2, UFunc("rhs", "lincomb"), t2, y2, h2, consts], {}, s_.fork(), ctx)
@@ -275,7 +294,7 @@ def check_algebraic_system(ex, reg, src, name, m, plain_fields=None):
             ex.opaque_nondet = saved
         for k2, (s2, res2) in enumerate(again):
             got2 = list(res2.items) if isinstance(res2, ConcVec) else None
-            reg.ground(pre + "second-evaluation-on-the-same-object-uses-its-own-arguments#%d.%d" % (k, k2), "post", "algebraic_system", got2 == want2, backend="lincomb-exact",
+            reg.ground(pre + "second-evaluation-on-the-same-object-uses-its-own-arguments#%d.%d" % (k, k2), "post", "algebraic_system", got2 is not None and agrees(s2, got2), backend="lincomb-exact",
                        detail="after F(K; t, y, h) the same object evaluates F(L; t2, y2, h2) == L_i - rhs(t2 + c_i h2, y2 + h2 sum_j a_ij L_j)")
 
 
